@@ -447,7 +447,10 @@ def parseBody (t : Nat) (b : List Nat) : Option (Frame × List Nat) :=
   else if t = ftDataBlocked then parse1 b Frame.dataBlocked
   else if t = ftStreamDataBlocked then parse2 b Frame.streamDataBlocked
   else if t = ftStreamsBlockedBidi ∨ t = ftStreamsBlockedUni then
-    parse1 b (Frame.streamsBlocked (t = ftStreamsBlockedUni))
+    match takeVarint b with
+    | none => none
+    | some (v, r) =>
+      if v > maxStreamsLimit then none else some (Frame.streamsBlocked (t = ftStreamsBlockedUni) v, r)
   else if t = ftNewConnectionID then consumeNewConnectionID b
   else if t = ftRetireConnectionID then parse1 b Frame.retireConnectionID
   else if t = ftPathChallenge then consumePath b Frame.pathChallenge
